@@ -113,7 +113,7 @@ def _key_sols(s):
     return ["-" if not k else ("N" if v.sol is None else v.sol) for v, k in zip(s.variables, s.is_answer_key)]
 
 
-def correspond(ctx):
+def _correspond(ctx):
     import warnings
     ctx.extra["rule"] = ("random well-typed programs through the real DSL (<=3 bools, <=2 small-domain ints) x key subsets (none/some/all); "
                          "(a) real Solver.solve(backend=MockBackend) where the mock picks each returned model from the run's PRNG; the same "
@@ -324,3 +324,10 @@ def replay(ctx, data):
             except Exception as e:
                 return Finding("solve:replay", f"[{variant}] raised {core.err_name(e)}", data)
     return None
+
+
+def correspond(ctx):
+    try:
+        _correspond(ctx)
+    finally:
+        dslgen.take_decl_failures(ctx, "C02")
